@@ -2,7 +2,9 @@
 
 Theorems: Props/C19.lean over Model/Rpc.lean (atomic-step model of RpcChannel, any interleaving of calling
 threads and the loop thread); invariants CallInv (Proofs/Rpc*.lean), TraceInv (RpcOnce), SrvInv (RpcServe), HaltInv /
-ServerInv (RpcLife), closed forms of the REQUEST branch and the reply specification `expected` (RpcShape).  T1: vlib/gen/rpc.py.  T2: harness/rpc_drv.cc (real RpcChannel / RpcServer /
+ServerInv (RpcLife), closed forms of the REQUEST branch and the reply specification `expected` (RpcShape); Model/RpcLock.lean +
+Proofs/RpcLock.lean: the channel's mutex made explicit (held / deadlocked) and completion closures that issue calls on their own
+channel (chained calls), a refinement of Model/Rpc.lean.  T1: vlib/gen/rpc.py.  T2: harness/rpc_drv.cc (real RpcChannel / RpcServer /
 generated service over socketpairs in a single-stepped EventLoop; the harness is the raw peer) against the
 Lean driver, plus the independent specification below evaluated on the implementation's own trace."""
 import glob
@@ -45,13 +47,25 @@ class Spec:
         self.deferred = {}        # channel -> {p: id}
         self.alive = {}
         self.next_tag = {}
+        self.depth = {}           # channel -> {tag: chain depth of its closure}
         self.fails = []
 
     def fail(self, kind, desc):
         self.fails.append((kind, desc))
 
-    def check_sent(self, c, lines, expected_tags, step):
-        """REQUEST frames observed: one per call made, fresh ids"""
+    @staticmethod
+    def wire_ids(c, lines):
+        """tag -> id of the REQUEST frames of this block (what the peer read from the wire)"""
+        res = {}
+        for l in lines:
+            m = re.match(r"c%d sent id=(\d+)(\(unset\))? tag=(-?\d+)" % c, l)
+            if m:
+                res.setdefault(int(m.group(3)), int(m.group(1)))
+        return res
+
+    def check_sent(self, c, lines, expected_tags, step, registered=(), chained=()):
+        """REQUEST frames observed: one per call made, fresh ids.  `registered`: tags whose frames the caller has entered
+        into `waiting` already (the threads' calls of a callmt, calls chained from closures inside the batch)"""
         seen = []
         for l in lines:
             m = re.match(r"c%d sent id=(\d+)(\(unset\))? tag=(-?\d+)(.*)$" % c, l)
@@ -60,18 +74,23 @@ class Spec:
             i, unset, tag, rest = int(m.group(1)), m.group(2), int(m.group(3)), m.group(4)
             if unset or rest.strip():
                 self.fail("bad-request-frame", "step %d: %s" % (step, l))
-            if i in self.ids[c].values():
+            if i in [v for t, v in self.ids[c].items() if t != tag] or tag in seen:
                 self.fail("duplicate-id", "step %d: id %d handed out twice on channel %d (%s)" % (step, i, c, l))
-            self.ids[c][tag] = i
-            self.waiting[c][i] = tag
+            if tag not in registered:
+                self.ids[c][tag] = i
+                self.waiting[c][i] = tag
             seen.append(tag)
         if sorted(seen) != sorted(expected_tags):
-            self.fail("request-not-sent", "step %d: calls %s, REQUEST frames seen for %s" % (step, sorted(expected_tags), sorted(seen)))
+            missing = set(expected_tags) - set(seen)
+            kind = "chained-call-lost" if missing and missing <= set(chained) else "request-not-sent"
+            self.fail(kind, "step %d: calls %s, REQUEST frames seen for %s" % (step, sorted(expected_tags), sorted(seen)))
 
-    def deliver(self, c, lines, step, pre_registered=()):
-        """the loop handled every queued message of channel c; `lines` = what channel c showed"""
-        exp_done, exp_replies, exp_dispatch = [], [], []
+    def deliver(self, c, lines, step, new_tags=()):
+        """the loop handled every queued message of channel c; `lines` = what channel c showed.  `new_tags`: calls made
+        by this very operation (callmt) whose frames are in `lines` too"""
+        exp_done, exp_replies, exp_dispatch, exp_chained = [], [], [], []
         bare_seen = False
+        wire = self.wire_ids(c, lines)
         for m in self.inbox[c]:
             if not self.alive[c]:
                 break
@@ -82,6 +101,20 @@ class Spec:
                 if i in self.waiting[c]:
                     tag = self.waiting[c].pop(i)
                     exp_done.append((tag, p if has_resp else None))
+                    d = self.depth[c].get(tag, 0)
+                    if d > 0:
+                        # the closure of `tag` issues a call on its own channel: it gets the next tag, must be given a
+                        # fresh id, is outstanding from here on (a later message of this batch may answer it already)
+                        t2 = self.next_tag[c]
+                        self.next_tag[c] += 1
+                        self.depth[c][t2] = d - 1
+                        exp_chained.append((t2, tag))
+                        if t2 in wire:
+                            i2 = wire[t2]
+                            if i2 in self.ids[c].values():
+                                self.fail("duplicate-id", "step %d: id %d handed out twice on channel %d (chained call %d)" % (step, i2, c, t2))
+                            self.ids[c][t2] = i2
+                            self.waiting[c][i2] = t2
             elif m[0] == "request":
                 _, i, svc, meth, (p, _, _) = m
                 if self.kind[c] != "server" or svc != "echo":
@@ -97,12 +130,18 @@ class Spec:
                     else:
                         self.deferred[c][p] = i
         self.inbox[c] = []
-        self.compare(c, lines, step, exp_done, exp_replies, exp_dispatch)
+        self.compare(c, lines, step, exp_done, exp_replies, exp_dispatch, exp_chained=exp_chained)
+        self.check_sent(c, lines, list(new_tags) + [t for t, _ in exp_chained], step,
+                        registered=list(new_tags) + [t for t, _ in exp_chained], chained=[t for t, _ in exp_chained])
         return bare_seen
 
-    def compare(self, c, lines, step, exp_done, exp_replies, exp_dispatch, exp_free=None):
-        dones, replies, dispatches, frees = [], [], [], []
+    def compare(self, c, lines, step, exp_done, exp_replies, exp_dispatch, exp_free=None, exp_chained=None):
+        dones, replies, dispatches, frees, chained = [], [], [], [], []
         for l in lines:
+            m = re.match(r"c%d chained (\d+) by (\d+)$" % c, l)
+            if m:
+                chained.append((int(m.group(1)), int(m.group(2))))
+                continue
             m = re.match(r"c%d done (\d+) view=(\d+|-)$" % c, l)
             if m:
                 dones.append((int(m.group(1)), None if m.group(2) == "-" else int(m.group(2))))
@@ -147,6 +186,10 @@ class Spec:
             self.fail("completion-order", "step %d: closures ran as %s, responses arrived as %s" % (step, dones, exp_done))
         for tag, _ in dones:
             self.completed[c].add(tag)
+        # calls issued from inside closures: CallMethod returned, once per closure that chains
+        if chained != (exp_chained or []) and not self.fails:
+            self.fail("chained-call-lost" if len(chained) < len(exp_chained or []) else "unexpected-event",
+                      "step %d: calls issued from closures (call, by) %s, expected %s" % (step, chained, exp_chained or []))
         # the response object of a completed call is released exactly once, of no other call
         want_free = sorted([("resp", t) for t in exp_tags] + (exp_free or []))
         for f in frees:
@@ -189,8 +232,13 @@ class Spec:
                 else:
                     self.fail("abort", "step %d `%s`: an assertion of the library failed" % (step, op))
                 break
+            if "hang" in blk:
+                text = next((l[2:] for l in blocks[step] if l.startswith("# ")), "")
+                self.fail("hang", "step %d `%s`: the operation never finishes (%s); the calls still outstanding are never completed, "
+                          "a call issued from a completion closure is never registered" % (step, op, text))
+                break
             if crash:
-                self.fail("crash", "step %d `%s`: %s" % (step, op, crash[0]))
+                self.fail("hang" if "<<exit 124>>" in crash[0] else "crash", "step %d `%s`: %s" % (step, op, crash[0]))
                 break
             per = {}
             for l in blk:
@@ -205,25 +253,35 @@ class Spec:
             elif name == "chan":
                 c = int(w[1])
                 self.kind[c] = w[2]
-                for d in (self.ids, self.waiting, self.deferred):
+                for d in (self.ids, self.waiting, self.deferred, self.depth):
                     d[c] = {}
                 self.completed[c], self.freed[c], self.inbox[c], self.alive[c], self.next_tag[c] = set(), set(), [], True, 0
             elif name == "call":
                 c = int(w[1])
                 tag = self.next_tag[c]
                 self.next_tag[c] += 1
+                self.depth[c][tag] = int(w[2]) if len(w) > 2 else 0
                 self.check_sent(c, per.get(c, []), [tag], step)
                 for cc in per:
                     self.compare(cc, per[cc], step, [], [], [])
             elif name in ("iter", "callmt"):
+                mt, tags = None, []
                 if name == "callmt":
-                    c, n = int(w[1]), int(w[2])
-                    tags = list(range(self.next_tag[c], self.next_tag[c] + n))
-                    self.next_tag[c] += n
+                    mt, n = int(w[1]), int(w[2])
+                    tags = list(range(self.next_tag[mt], self.next_tag[mt] + n))
+                    self.next_tag[mt] += n
                     # the threads have returned from CallMethod: their calls are registered before the loop runs
-                    self.check_sent(c, per.get(c, []), tags, step)
+                    # (their frames are queued behind the loop's I/O phase: a response of this batch can only have guessed an id)
+                    wire = self.wire_ids(mt, per.get(mt, []))
+                    for t in tags:
+                        self.depth[mt][t] = int(w[3]) if len(w) > 3 else 0
+                        if t in wire:
+                            if wire[t] in self.ids[mt].values():
+                                self.fail("duplicate-id", "step %d: id %d handed out twice on channel %d" % (step, wire[t], mt))
+                            self.ids[mt][t] = wire[t]
+                            self.waiting[mt][wire[t]] = t
                 for cc in sorted(self.kind):
-                    self.deliver(cc, per.get(cc, []), step)
+                    self.deliver(cc, per.get(cc, []), step, new_tags=tags if cc == mt else ())
             elif name == "peerResponse":
                 self.inbox[int(w[1])].append(("response", int(w[2]), parse_spec(w[3])))
             elif name == "peerRequest":
@@ -274,6 +332,18 @@ class Prop:
                   "done-callback, with the request's id, being the service's answer or NO_SERVICE / NO_METHOD / INVALID_REQUEST; service "
                   "called once iff the request is valid; no callback used after it ran, under the named hypothesis ServiceDoneOnce); "
                   "server_channels (every RpcServer channel is such a channel, one per connection, isolated); f1_witness_passes. "
+                  "Re-entrancy (Model/RpcLock.lean: the channel with its mutex - `held` is set by the RESPONSE look-up exactly when the "
+                  "extracted lock scope covers parse and Run() - and closures that issue CallMethod on their own channel as three "
+                  "steps of the loop thread, any number of times, interleaved with other threads; a re-entrant insert with the lock held "
+                  "is the outcome `deadlocked`): locked_refines / chained_histories_inherit (every history with chained calls is a "
+                  "history of Model/Rpc.lean, so every theorem above holds for it; chained_histories restates ids_unique, "
+                  "complete_at_most_once, complete_with_own_response, complete_once, free = ran, outstanding_exact for it); "
+                  "closure_runs_unlocked (in every reachable state the loop thread does not hold mutex_ between steps - in particular "
+                  "while a closure runs - and nothing is deadlocked); chained_call_registers (a call issued from inside a running closure "
+                  "gets the next id, distinct from every earlier one, is registered under it, its frame leaves, the running completion is "
+                  "untouched, no deadlock); chained_call_completes (its response then runs exactly its closure, once); "
+                  "reentry_under_lock_deadlocks (the model's deadlock outcome: with the lock kept, the chained call is never registered "
+                  "and nothing ever moves again). "
                   "The id source, lock scopes, the assertion of the RESPONSE branch (none), erase, run/free counts, the request decision "
                   "tree and reply ids are re-extracted from /repo's AST on every run; the hand-written steps are tied to the real "
                   "classes by a differential run with a scripted raw peer and real concurrent callers")
@@ -286,9 +356,13 @@ class Prop:
                   "scheduled. Finding C19-F1 (assert on peer-controlled input) is repaired in /repo; with the assert back, "
                   "assert_removed and f1_witness_passes no longer compile and the corpus witness F1-bare-response-asserts.case aborts. "
                   "In the model a second invocation of a done-callback is a use-after-free event, excluded by the hypothesis "
-                  "ServiceDoneOnce of one_reply.")
+                  "ServiceDoneOnce of one_reply. A thread that can never proceed is reported by the harness as the result line `hang` "
+                  "(decided from the lock state by link-level interposition of pthread_mutex_lock/unlock: a thread locks a normal mutex "
+                  "it holds; a 60 s SIGALRM watchdog per operation is only a backstop); the model's `deadlocked` prints the same line.")
     rule = ("histories over 2-4 channels (client channels and RpcServer-created server channels): calls from the loop thread and "
-            "from 2-4 concurrent threads; peer responses for outstanding, answered (duplicate), never-issued and guessed ids with "
+            "from 2-4 concurrent threads, about 40% of them with a completion closure that issues a follow-up call on the same "
+            "channel from inside Run() (chains of depth 1-5; 60% of the cases are chain-heavy and answer the chained calls until "
+            "the chains run out); peer responses for outstanding, answered (duplicate), never-issued and guessed ids with "
             "payload / unparsable payload / error / both / neither; requests for existing and missing services and methods, "
             "unparsable request payloads, synchronous and deferred done; ERROR-typed messages; channel destruction. Non-trivial = "
             "at least one closure ran or one reply was produced; distinct = distinct observation traces")
@@ -298,9 +372,12 @@ class Prop:
         "vlib/gen/rpcskel.py (same AST -> Generated/RpcSkel.lean: statement skeletons of ~RpcChannel, CallMethod, onMessage, "
         "onRpcMessage, doneCallback, RpcServer::onConnection) and the reading of Model/Rpc.lean written down in "
         "Model/RpcSkelDecl.lean; the two are proved equal (statement_order_tied)",
-        "hand-written Model/Rpc.lean (atomic steps, heap-cell events), tied by the differential run (harness/rpc_drv.cc vs drv_rpc)",
+        "hand-written Model/Rpc.lean (atomic steps, heap-cell events) and Model/RpcLock.lean (mutex, chained calls), tied by the "
+        "differential run (harness/rpc_drv.cc vs drv_rpc); the harness' self-deadlock detector (interposed pthread_mutex_lock/unlock, "
+        "per-thread set of held normal mutexes)",
         "protobuf (generated stubs, parsing), std::map, muduo's TcpConnection/EventLoop/RpcCodec below the message level (C01, C18)",
-        "atomicity of the critical sections: MutexLockGuard scopes are taken as atomic steps (C08 covers the lock discipline)",
+        "atomicity of the critical sections: MutexLockGuard scopes are taken as atomic steps (C08 covers the lock discipline); the one "
+        "scope that can span steps - the RESPONSE branch's - is explicit (`held`, from the extracted respLookupUnderLock / respRunOutsideLock)",
     ]
     assumptions = [
         "ServiceDoneOnce (named hypothesis of one_reply): the service invokes a done-callback only while it holds it - at most once, and never one it was not given",
@@ -309,6 +386,8 @@ class Prop:
         "the id counter does not wrap (2^63 calls)",
         "framing is transparent: whole RpcMessages in, whole RpcMessages out (C18)",
         "~RpcChannel runs on the loop thread between two messages (destroy_frees_once: pending = none)",
+        "a completion closure is sequential code on the loop thread: what it does to its own channel is a sequence of CallMethod calls "
+        "(chainBegin/chainInsert/chainSend); it does not destroy the channel it is called from",
     ]
     partial_theorems = []
 
@@ -322,16 +401,42 @@ class Prop:
         if rng.random() < 0.3:
             kinds.reverse()
         lines = ["flavour " + flavour] + ["chan %d %s" % (i, k) for i, k in enumerate(kinds)]
-        ncalls = [0] * nch
+        # the generator follows the client side of every channel (ids are handed out 1, 2, 3, ...; every RESPONSE for an
+        # outstanding id completes that call; a completed call with chain depth d issues one with depth d-1) so that it
+        # can aim answers at chained calls too.  This only steers the choice of inputs; nothing is decided from it.
+        counter = [0] * nch                     # ids handed out so far
+        waiting = [dict() for _ in range(nch)]  # id -> chain depth of its closure
+        inbox = [[] for _ in range(nch)]
         answered = [[] for _ in range(nch)]
         deferred = [[] for _ in range(nch)]
         nextp = [1000]
         alive = [True] * nch
         allow_bare = True      # since the fix of C19-F1 a bare RESPONSE is an answer like any other, in every flavour
+        chainy = rng.random() < 0.6             # a fair share of the cases is about chained calls
 
         def payload():
             nextp[0] += 1
             return nextp[0]
+
+        def depth():
+            r = rng.random()
+            if not chainy:
+                return 0 if r < 0.9 else 1
+            return 0 if r < 0.35 else (1 if r < 0.65 else (2 if r < 0.85 else rng.choice([3, 4, 5])))
+
+        def new_call(c, d):
+            counter[c] += 1
+            waiting[c][counter[c]] = d
+
+        def loop_iteration():
+            for c in range(nch):
+                if alive[c]:
+                    for i in inbox[c]:
+                        if i in waiting[c]:
+                            d = waiting[c].pop(i)
+                            if d > 0:
+                                new_call(c, d - 1)
+                inbox[c] = []
 
         def resp_spec():
             r = rng.random()
@@ -349,27 +454,37 @@ class Prop:
             c = rng.randrange(nch)
             k = rng.random()
             if k < 0.2 and alive[c]:
-                lines.append("call %d" % c)
-                ncalls[c] += 1
+                d = depth()
+                lines.append("call %d %d" % (c, d) if d or rng.random() < 0.2 else "call %d" % c)
+                new_call(c, d)
             elif k < 0.27 and alive[c]:
                 n = rng.choice([2, 3, 4])
-                lines.append("callmt %d %d" % (c, n))
-                ncalls[c] += n
+                d = depth() if rng.random() < 0.4 else 0
+                lines.append("callmt %d %d %d" % (c, n, d) if d else "callmt %d %d" % (c, n))
+                for _j in range(n):
+                    new_call(c, d)
             elif k < 0.55:
                 r = rng.random()
-                if r < 0.55 and ncalls[c]:
-                    i = rng.randrange(1, ncalls[c] + 1)
-                elif r < 0.75 and answered[c]:
+                pending_chain = [i for i in inbox[c] if waiting[c].get(i, 0) > 0]
+                if r < 0.45 and waiting[c]:
+                    i = rng.choice(sorted(waiting[c]))                 # an outstanding call (out of order: any of them)
+                elif r < 0.55 and counter[c]:
+                    i = rng.randrange(1, counter[c] + 1)
+                elif r < 0.65 and pending_chain:
+                    i = counter[c] + rng.randrange(1, len(pending_chain) + 1)   # the id a call chained in this batch will get
+                elif r < 0.78 and answered[c]:
                     i = rng.choice(answered[c])
-                elif r < 0.9:
-                    i = rng.choice([0, ncalls[c] + 1, ncalls[c] + 2, ncalls[c] + rng.randrange(1, 6), 1 << 62, (1 << 64) - 1])
+                elif r < 0.92:
+                    i = rng.choice([0, counter[c] + 1, counter[c] + 2, counter[c] + rng.randrange(1, 6), 1 << 62, (1 << 64) - 1])
                 else:
                     i = rng.randrange(0, 12)
                 answered[c].append(i)
                 lines.append("peerResponse %d %d %s" % (c, i, resp_spec()))
+                inbox[c].append(i)
                 if rng.random() < 0.15:
                     lines.append("peerResponse %d %d %s" % (c, i, resp_spec()))   # duplicate in the same batch
-            elif k < 0.75:
+                    inbox[c].append(i)
+            elif k < 0.72:
                 svc = "echo" if rng.random() < 0.8 else "nosvc"
                 meth = rng.choice(["Echo", "Echo", "Defer", "Defer", "nometh"])
                 spec = "ok:%d" % payload() if rng.random() < 0.8 else "garbage"
@@ -377,23 +492,35 @@ class Prop:
                 lines.append("peerRequest %d %d %s %s %s" % (c, i, svc, meth, spec))
                 if kinds[c] == "server" and svc == "echo" and meth == "Defer" and spec.startswith("ok:"):
                     deferred[c].append([int(spec[3:]), False])    # [payload, delivered]
-            elif k < 0.78:
+            elif k < 0.75:
                 lines.append("peerError %d %d" % (c, rng.randrange(0, 6)))
-            elif k < 0.84:
+            elif k < 0.81:
                 ready = [d for d in deferred[c] if d[1]]
                 if ready:
                     d = rng.choice(ready)
                     deferred[c].remove(d)
                     lines.append("fireDone %d %d" % (c, d[0]))
-            elif k < 0.86 and kinds[c] == "client" and alive[c]:
+            elif k < 0.83 and kinds[c] == "client" and alive[c]:
                 lines.append("destroy %d" % c)
                 alive[c] = False
             else:
                 lines.append("iter")
             if lines[-1] == "iter" or lines[-1].startswith("callmt"):
+                loop_iteration()
                 for ch in range(nch):
                     for d in deferred[ch]:
                         d[1] = True
+        # let the chains run out: answer what is outstanding, a few rounds
+        for _ in range(rng.choice([0, 1, 2, 4]) if chainy else 0):
+            for c in range(nch):
+                ids = sorted(waiting[c])
+                rng.shuffle(ids)
+                for i in ids:
+                    if alive[c] and rng.random() < 0.8:
+                        lines.append("peerResponse %d %d %s" % (c, i, resp_spec()))
+                        inbox[c].append(i)
+            lines.append("iter")
+            loop_iteration()
         lines.append("iter")
         for c in range(nch):
             for d in list(deferred[c]):
@@ -453,6 +580,14 @@ class Prop:
                 ctx.count("reply:" + m.group(1))
             if " done " in l:
                 ctx.count("closure-ran")
+        born = set()
+        for l in flat:
+            m = re.match(r"c(\d+) chained (\d+) by (\d+)$", l)
+            if m:
+                ctx.count("chained-call")
+                if (m.group(1), m.group(3)) in born:
+                    ctx.count("chained-call-depth>=2")
+                born.add((m.group(1), m.group(2)))
         ctx.record(Case("rpc", lines, origin), impl, nontrivial=nontrivial,
                    sample={"origin": origin, "ops": lines[:14], "events": [l for l in flat if not l.startswith("<")][:10]})
         if fails:
